@@ -45,7 +45,7 @@ def run : Runner
     let k ← nat? k; let nops ← nat? nops; let seed ← nat? seed
     if withReload == "1" then
       -- with Reload/Unload the final state depends on the schedule: only race freedom is decided (race detector)
-      pure { model := impl, prop := if impl.startsWith "done" then "ok" else "violated:" ++ impl }
+      pure { model := "done 1", prop := if impl == "done 1" then "ok" else "violated:" ++ impl }
     else
       -- insertions commute (bitwise or), so any linearisation gives this bit array: a lost update shows up as a missing bit
       let m0 : Bloom.Msg := ⟨List.replicate flen 0, nh, UInt32.ofNat tw, 0⟩
